@@ -1,11 +1,182 @@
 import SageModel.Proto
+import SageModel.Model.C17
 
-/-! Driver ops for C17 (stub: no ops yet). -/
+/-! Driver ops for C17.
+
+`mgf    fid h:text [k (h:token 0|1 u32)…] [m codepoint…] | ok [n spectrum…] | err | err:utf8 | panic`
+`mgfraw` — same format (the generator differs: mutated / hand-made bytes, possibly invalid UTF-8).
+
+The model (`parseText`) runs on the decoded text at `ν := Float32`; `str::parse::<f32>` is the token
+table of the request (the driver never parses decimal text), `char::is_numeric` is "ASCII digit or
+listed code point". All float operations of the reader (`/ 60.0`, `abs`, unary minus, the running sum)
+are the native IEEE ones, so the comparison is exact on bit patterns (NaNs canonicalised on both
+sides: `Float32.toBits` canonicalises, the harness prints the canonical quiet NaN).
+
+Spec verdict: the executable spec `specSpectra` (block-wise denotation, `Model/C17.lean`) is evaluated
+on the classified lines and compared field by field with the IMPLEMENTATION's reply. Only what the
+property text talks about is part of the verdict (number of spectra, MS level 2, title, precursor
+m/z / intensity / charge / isolation window, RT in minutes, peak list, no panic); file id, TIC,
+representation, injection time, mobility are compared with the model only (`agree`).
+-/
 namespace Sage.C17
 open Sage.Proto
 
+instance : NumOps Float32 where
+  zero := 0.0
+  one := 1.0
+  sum0 := -0.0          -- `impl Sum for f32` folds from -0.0
+  add := (· + ·)
+  div60 := fun x => x / 60.0
+  abs := Float32.abs
+  neg := fun x => -x
+
+/-- implementation-side / model-side record of one precursor, floats as bit patterns -/
+structure IPrec where
+  mz : Nat
+  inten : Option Nat
+  charge : Option Nat
+  window : Option (String × Nat × Nat)
+  sref : Bool
+  iim : Option Nat
+deriving BEq, Repr
+
+structure ISpec where
+  fid : Nat
+  level : Nat
+  id : List UInt8
+  precs : List IPrec
+  repr : String
+  rt : Nat
+  iit : Nat
+  tic : Nat
+  mzs : List Nat
+  ints : List Nat
+  mob : Bool
+deriving BEq, Repr
+
+def bitsOf (x : Float32) : Nat := x.toBits.toNat   -- NaN canonical
+
+def toI (fid : Nat) (s : Spectrum Float32) : ISpec :=
+  { fid := fid, level := 2, id := s.id.toUTF8.toList,
+    precs := s.precs.map fun p =>
+      { mz := bitsOf p.mz, inten := p.intensity.map bitsOf, charge := p.charge,
+        window := p.window.map fun (u, lo, hi) => ((match u with | .da => "da" | .ppm => "ppm"), bitsOf lo, bitsOf hi),
+        sref := false, iim := none },
+    repr := "c", rt := bitsOf s.rt, iit := bitsOf 0.0, tic := bitsOf s.tic,
+    mzs := s.mzs.map bitsOf, ints := s.ints.map bitsOf, mob := false }
+
+def renderPrec (p : IPrec) : String :=
+  " ".intercalate [toString p.mz, outOpt toString p.inten, outOpt toString p.charge,
+    (match p.window with
+     | none => "0"
+     | some (u, lo, hi) => s!"1 {u} {lo} {hi}"),
+    outBool p.sref, outOpt toString p.iim]
+
+def renderSpec (s : ISpec) : String :=
+  " ".intercalate [toString s.fid, toString s.level, hex s.id, outList renderPrec s.precs, s.repr,
+    toString s.rt, toString s.iit, toString s.tic, outList toString s.mzs, outList toString s.ints, outBool s.mob]
+
+def pPrec : P IPrec := do
+  let mz ← nat
+  let inten ← opt nat
+  let charge ← opt nat
+  let hasW ← nat
+  let window ← (if hasW == 0 then pure none else do
+    let u ← tok
+    let lo ← nat
+    let hi ← nat
+    pure (some (u, lo, hi)))
+  let sref ← bool
+  let iim ← opt nat
+  pure { mz, inten, charge, window, sref, iim }
+
+def pSpec : P ISpec := do
+  let fid ← nat
+  let level ← nat
+  let id ← bytes
+  let precs ← list pPrec
+  let repr ← tok
+  let rt ← nat
+  let iit ← nat
+  let tic ← nat
+  let mzs ← list nat
+  let ints ← list nat
+  let mob ← bool
+  pure { fid, level, id, precs, repr, rt, iit, tic, mzs, ints, mob }
+
+/-- first clause of the property that spectrum `i` of the implementation's reply breaks -/
+def cmpSpec (i : Nat) (want got : ISpec) : Option String :=
+  if got.level != 2 then some s!"bad:ms_level@{i}"
+  else if got.id != want.id then some s!"bad:title@{i}"
+  else if got.precs.length != want.precs.length then some s!"bad:precursor_count@{i}"
+  else if got.precs.map (·.charge) != want.precs.map (·.charge) then some s!"bad:charge@{i}"
+  else if got.precs.map (·.window) != want.precs.map (·.window) then some s!"bad:window@{i}"
+  else if got.precs.map (·.mz) != want.precs.map (·.mz) then some s!"bad:pepmass_mz@{i}"
+  else if got.precs.map (·.inten) != want.precs.map (·.inten) then some s!"bad:pepmass_intensity@{i}"
+  else if got.rt != want.rt then some s!"bad:rt_minutes@{i}"
+  else if got.mzs != want.mzs then some s!"bad:peak_mz@{i}"
+  else if got.ints != want.ints then some s!"bad:peak_intensity@{i}"
+  else none
+
+def cmpAll : Nat → List ISpec → List ISpec → String
+  | _, [], [] => "ok"
+  | i, [], _ :: _ => s!"bad:extra_spectrum@{i}"
+  | i, _ :: _, [] => s!"bad:missing_spectrum@{i}"
+  | i, w :: ws, g :: gs =>
+    match cmpSpec i w g with
+    | some v => v
+    | none => cmpAll (i + 1) ws gs
+
+def lookup (tbl : List (String × Option Float32)) (dflt : Option Float32) (t : String) : Option Float32 :=
+  match tbl.find? (fun e => e.1 == t) with
+  | some e => e.2
+  | none => dflt
+
+def renderReply (fid : Nat) (l : List (Spectrum Float32)) : String :=
+  "ok " ++ outList (fun s => renderSpec (toI fid s)) l
+
+def handleMgf (args impl : List String) : Option Reply := do
+  let (fid, raw, tblRaw, nums) ← run (do
+    let fid ← nat
+    let raw ← bytes
+    let tbl ← list (do let t ← bytes; let v ← opt nat; pure (t, v))
+    let nums ← list nat
+    pure (fid, raw, tbl, nums)) args
+  let implS := " ".intercalate impl
+  match String.fromUTF8? (ByteArray.mk raw.toArray) with
+  | none =>
+    -- `read_to_string` fails before the reader is called
+    let spec := if impl == ["panic"] then "bad:panic" else if impl == ["err:utf8"] then "ok" else "bad:accepted_invalid_utf8"
+    pure (exact "err:utf8" implS spec)
+  | some text =>
+    let tbl ← tblRaw.mapM fun (t, v) => do
+      let s ← String.fromUTF8? (ByteArray.mk t.toArray)
+      pure (s, v.map fun b => Float32.ofBits b.toUInt32)
+    let isNum : Char → Bool := fun c => c.isDigit || nums.contains c.toNat
+    let chars := text.toList
+    let doc := classifyText (lookup tbl none) isNum chars
+    -- guard: every token the model asked for must be in the table
+    let doc' := classifyText (lookup tbl (some (Float32.ofBits 0x3fc00000))) isNum chars
+    let model := renderReply fid (parseLines doc)
+    if renderReply fid (parseLines doc') != model || doc.length != doc'.length then
+      pure { model := "token-table-incomplete", agree := false, spec := "na" }
+    else
+    let want := (specSpectra doc).map (toI fid)
+    let spec : String :=
+      match impl with
+      | ["panic"] => "bad:panic"
+      | ["err"] => if malformed doc then "ok" else "bad:error_on_wellformed_document"
+      | "ok" :: rest =>
+        (match run (list pSpec) rest with
+         | none => "na"
+         | some got => cmpAll 0 want got)
+      | _ => "bad:unexpected_reply_class"
+    pure (exact model implS spec)
+
 def handle (op : String) (args impl : List String) : Option Reply :=
   match op with
+  | "mgf" => some ((handleMgf args impl).getD badRequest)
+  | "mgfraw" => some ((handleMgf args impl).getD badRequest)
   | _ => none
 
 end Sage.C17
